@@ -174,7 +174,9 @@ def check_upload(node, mgr):
     if int.from_bytes(reg, "big") != mgr.registration_id:
         problems.append("registration id %r is not the account's %d" % (reg, mgr.registration_id))
     sk = node.getChild("skey")
-    if len(sk.getChild("id").getData()) != 3 or len(sk.getChild("value").getData()) != 32 or len(sk.getChild("signature").getData()) != 64:
+    if len(ident) != 32:
+        problems.append("identity key is %d bytes wide, 32 expected" % len(ident))
+    elif len(sk.getChild("id").getData()) != 3 or len(sk.getChild("value").getData()) != 32 or len(sk.getChild("signature").getData()) != 64:
         problems.append("signed prekey field widths wrong")
     else:
         pub = DjbECPublicKey(sk.getChild("value").getData())
@@ -269,8 +271,9 @@ def run():
     e2ekit.small_batches(BATCH, THRESHOLD)
     try:
         paths = g.transition_cover(rng)
-        if not thorough and len(paths) > 400:
-            paths = rng.sample(paths, 400)
+        r.notes["cover_paths"] = len(paths)
+        if not thorough and len(paths) > 1500:
+            paths = rng.sample(paths, 1500)
         covered = set()
         for pi, p in enumerate(paths):
             covered.update(p)
